@@ -495,6 +495,11 @@ pub fn relations(args: &Args, s: &mut Summary) {
                                 if rem <= 0.0 || (f64::from(e.x) - wx).abs() > t || (f64::from(e.y) - wy).abs() > t {
                                     errs.push(format!("{what}: end point ({}, {}) is not at distance {rem} along the segment ({}, {})->({}, {})", e.x, e.y, a.x, a.y, b.x, b.y));
                                 }
+                                // a CUT (the curve got shorter) must not leave the segment it falls in
+                                if l < nd && rem > len + t {
+                                    errs.push(format!("{what}: cut point {rem} along a segment of length {len} ({}, {})->({}, {}): beyond the segment{}", a.x, a.y, b.x, b.y,
+                                                      if cat && mode == GameMode::Osu && k == 1 { " [osu! Catmull compensation booked on the first segment]" } else { "" }));
+                                }
                             }
                         }
                     }
@@ -521,7 +526,8 @@ pub fn relations(args: &Args, s: &mut Summary) {
         match r {
             Err(p) => s.mismatch("panic", json!({"cps": format!("{cps:?}"), "panic": p})),
             Ok(errs) if !errs.is_empty() => {
-                let sig = if errs[0].contains("non-finite") { "curve-contract:non-finite" } else if errs[0].contains("Catmull") { "curve-contract:catmull-length" } else { "curve-contract" };
+                let sig = if errs.iter().all(|e| e.contains("[osu! Catmull compensation booked on the first segment]")) { "curve-contract:cut-beyond-first-segment:osu-catmull" }
+                          else if errs[0].contains("non-finite") { "curve-contract:non-finite" } else if errs[0].contains("Catmull simplification") { "curve-contract:catmull-length" } else { "curve-contract" };
                 s.mismatch(sig, json!({"cps": format!("{cps:?}"), "errors": errs.iter().take(4).collect::<Vec<_>>()}));
             }
             Ok(_) => {
